@@ -143,6 +143,13 @@ def run_case(rng, info):
         redefined = (tag, full, unit, width, newfmt)
         info = dict(info)
         info[t] = (newty, info[t][1])
+    earlier = rng.random() < 0.4
+    if earlier:
+        # the same device was already written to another book (a short one) before this one
+        with pgm.quiet():
+            with Spreadsheet(device=dev, columns_names='name ' + rng.choice(['speed', 'scan power', 'yin yout']), book_name='book0.xlsx',
+                             suppr_redd_cols=rng.random() < 0.5, static_preamble=rng.random() < 0.5) as ss0:
+                ss0.write_structures(verbose=False)
     with pgm.quiet():
         with Spreadsheet(device=dev, columns_names=' '.join(sel), book_name='book.xlsx', suppr_redd_cols=suppr,
                          static_preamble=static, new_columns=[redefined] if redefined else None) as ss:
@@ -185,7 +192,7 @@ def run_case(rng, info):
         copt(cnat(sel.index('yout')) if 'yout' in sel else None), structs_lit, out))
     long_name = any(isinstance(getattr(o, 'name', None), str) and len(o.name) > 20 for o in structs)
     big = any(isinstance(getattr(o, t, None), (int, float)) and getattr(o, t) >= 1e5 for o in structs for t in sel if t not in ('yin', 'yout'))
-    descr = {'columns': sel, 'suppr': suppr, 'static': static, 'new_columns': redefined, 'n_wg': len(objs), 'n_mk': len(mks),
+    descr = {'columns': sel, 'suppr': suppr, 'static': static, 'new_columns': redefined, 'device_written_before': earlier, 'n_wg': len(objs), 'n_mk': len(mks),
              'names': [getattr(o, 'name', None) for o in structs], 'long_name': long_name, 'value_ge_1e5': big}
     return lit, descr
 
